@@ -500,7 +500,7 @@ fn stress_session(ctx: &Ctx, idx: usize, seeds: &[String], cycles: u64) {
 pub fn run_c10(ctx: &Ctx) -> Result<(), String> {
     let seeds: Vec<String> = corpus::all_seeds()?;
     let thorough = ctx.tier == "thorough";
-    let n_positions = if thorough { 6 } else { 2 };
+    let n_positions = if thorough { 8 } else { 3 };
     let mut all: Vec<Schedule> = Vec::new();
     let mut rng = Rng::derive(ctx.seed, 0xC10);
     for k in 0..n_positions {
@@ -519,7 +519,7 @@ pub fn run_c10(ctx: &Ctx) -> Result<(), String> {
     }
     out::count("C10.forced_schedules", all.len() as u64);
     let next = std::sync::atomic::AtomicUsize::new(0);
-    let n_stress = if thorough { 600 } else { 48 };
+    let n_stress = if thorough { 1_500 } else { 160 };
     let cycles = if thorough { 30 } else { 12 };
     let total = all.len() + n_stress;
     let started = std::time::Instant::now();
